@@ -144,6 +144,83 @@ fn rule_list_quick() -> Vec<RuleSpec> {
     v
 }
 
+/// day set of the partial-tie sweep: the quick notations, the 4th and last week of every month for every week day, and the
+/// notations around 28/29 February and 1 March
+fn tie_days(all: bool, tabs: &Tables) -> Vec<Day> {
+    if all {
+        return tabs.days.clone();
+    }
+    let mut v = quick_days();
+    for m in 1..=12u8 {
+        for w in [4u8, 5] {
+            for d in 0..7u8 {
+                v.push(Day::M(m, w, d));
+            }
+        }
+    }
+    for n in [59u16, 60, 61] {
+        v.push(Day::J(n));
+    }
+    for n in [58u16, 59, 60] {
+        v.push(Day::Z(n));
+    }
+    v.sort_by_key(|d| tabs.index_of(*d));
+    v.dedup();
+    v
+}
+
+/// Rules whose start and end instants coincide in some years but not in all of them (the order of the two events of a tie
+/// year is then defined by the other years): for every ordered pair of notations (a, b) and every whole-day distance k that
+/// b - a takes in some but not all years of the 400-year cycle, UTC day times u_s - u_e = k days in four sign patterns
+/// (both positive, both negative, opposite signs both ways) x two offset pairs; every year of the cycle is probed.
+fn sweep_partial_ties(tabs: &Tables, rec: &Recorder, all_days: bool, kf1_open: bool) -> Tally {
+    let days = tie_days(all_days, tabs);
+    let nd = days.len();
+    let idx: Vec<usize> = days.iter().map(|d| tabs.index_of(*d)).collect();
+    let t = (0..nd * nd)
+        .into_par_iter()
+        .map(|ij| {
+            let (i, j) = (ij / nd, ij % nd);
+            let mut tl = Tally::default();
+            let (ta, tb) = (&tabs.tabs[idx[i]], &tabs.tabs[idx[j]]);
+            // distances over one 400-year cycle
+            let mut count = [0u32; 13];
+            for y in 2000..2400 {
+                let k = tb.get(y) - ta.get(y);
+                if (-6..=6).contains(&k) {
+                    count[(k + 6) as usize] += 1;
+                }
+            }
+            for kk in 0..13usize {
+                if count[kk] == 0 || count[kk] == 400 {
+                    continue;
+                }
+                let k = kk as i64 - 6;
+                let mut pats: Vec<(i64, i64)> = vec![(H + k.max(0) * D, H + (-k).max(0) * D), (-H - (-k).max(0) * D, -H - k.max(0) * D)];
+                if k > 0 {
+                    pats.push((H, H - k * D));
+                    pats.push((k * D - H, -H));
+                } else if k < 0 {
+                    pats.push((H + k * D, H));
+                    pats.push((-H, -k * D - H));
+                }
+                for (us, ue) in pats {
+                    debug_assert_eq!(us - ue, k * D);
+                    for o in [(0i64, H), (-5 * H, -4 * H)] {
+                        let r = spec(days[i], days[j], us + o.0, ue + o.1, o);
+                        if let Err(m) = guard(|| check_rule(tabs, &r, 2000, 2399, rec, "partial_ties", &mut tl, kf1_open)) {
+                            rec.violation("partial_ties", json!({"kind":"rule","rule":spec_json(&r),"t":null,"year":2000}), json!("no panic"), json!(m));
+                        }
+                    }
+                }
+            }
+            tl
+        })
+        .reduce(Tally::default, Tally::merge);
+    rec.sub("partial_ties", json!({"notations": nd, "explored": t.rules, "refused_by_constructor": t.rejected, "not_interleaving_or_degenerate": t.skipped_class, "probes": t.evals}));
+    t
+}
+
 /// extreme years: lookups in years i32::MIN+2 / i32::MAX-2 must answer like the model, beyond must be OutOfRange
 fn sweep_extreme_years(cyc: &Cycle, rec: &Recorder, tl: &mut Tally, kf1_open: bool) {
     let days = [Day::J(1), Day::J(365), Day::Z(0), Day::Z(365), Day::M(3, 2, 0), Day::M(11, 1, 0), Day::M(1, 1, 0), Day::M(12, 5, 6), Day::M(2, 5, 3)];
@@ -329,6 +406,7 @@ pub fn run(args: &Args) -> i32 {
         rec.sub("full_time_offset_product", json!({"explored": t.rules, "refused_by_constructor": t.rejected, "not_interleaving_or_degenerate": t.skipped_class, "probes": t.evals}));
         total = total.merge(t);
     }
+    total = total.merge(sweep_partial_ties(&tabs, &rec, thorough, kf1_open));
     let mut tl = Tally::default();
     if let Err(m) = guard(|| sweep_extreme_years(&cyc, &rec, &mut tl, kf1_open)) {
         rec.violation("extreme_years", json!({"kind":"extreme_sweep"}), json!("no panic"), json!(m));
